@@ -19,7 +19,7 @@ import re
 
 import common
 
-ERR_NAMES = {0: 'ok', 1: 'whitespace', 2: 'identifier', 3: 'duplicate', 4: 'missing-converter',
+ERR_NAMES = {10: 'bad-responders', 0: 'ok', 1: 'whitespace', 2: 'identifier', 3: 'duplicate', 4: 'missing-converter',
              5: 'unknown-converter', 6: 'cannot-instantiate', 7: 'no-children', 8: 'conflict',
              9: 'complex-multi'}
 
@@ -104,6 +104,19 @@ class Res:
         pass
 
 
+class AsyncRes:
+    """coroutine responders: what an ASGI router requires and a WSGI router refuses (TypeError)"""
+
+    def __init__(self, i):
+        self.i = i
+
+    async def on_get(self, req, resp):
+        pass
+
+    async def on_post(self, req, resp):
+        pass
+
+
 # ------------------------------------------------------------------ generators
 
 NAMES = ['a', 'b', 'c', 'x', 'y', 'n', 'm', 'k', 'id']
@@ -148,9 +161,18 @@ def gen_template(rng, pool):
 
 
 def gen_history(rng, n_add):
+    """['add', template, rid, compile, responders_ok] | ['find', uri]; about one add in eight carries a
+    resource whose responders are of the wrong kind for the router (refused with TypeError), half of
+    those for a template that is already registered"""
     pool, ops, rid = [], [], 0
     for _ in range(n_add):
-        ops.append(['add', gen_template(rng, pool), rid, rng.random() < 0.3])
+        rok = rng.random() > 0.12
+        prev = [o[1] for o in ops if o[0] == 'add']
+        if not rok and prev and rng.random() < 0.5:
+            tpl = rng.choice(prev)
+        else:
+            tpl = gen_template(rng, pool)
+        ops.append(['add', tpl, rid, rng.random() < 0.3, rok])
         rid += 1
         if rng.random() < 0.3:
             ops.append(['find', None])       # path chosen once the representatives are known
@@ -340,18 +362,31 @@ def real_find(router, path):
         return ('crash', type(e).__name__ + ': ' + str(e)[:120])
 
 
-def real_add(compiled, router, tpl, rid, comp, resources):
+def real_add(compiled, router, tpl, rid, comp, resources, asgi=False, rok=True):
+    """asgi: the router is used the way falcon.asgi.App uses it (add_route(..., _asgi=True))"""
     try:
-        res = resources.setdefault(rid, Res(rid))
+        good = AsyncRes if asgi else Res
+        bad = Res if asgi else AsyncRes
+        res = resources.setdefault(rid, (good if rok else bad)(rid))
+        kw = {}
         if comp:
-            router.add_route(tpl, res, compile=True)
-        else:
-            router.add_route(tpl, res)
+            kw['compile'] = True
+        if asgi:
+            kw['_asgi'] = True
+        router.add_route(tpl, res, **kw)
         return 'ok'
     except compiled.UnacceptableRouteError as e:
         return 'reject'
     except Exception as e:  # noqa
         return 'other:' + type(e).__name__
+
+
+def rok_of(o):
+    return o[4] if len(o) > 4 else True
+
+
+def model_class(code):
+    return 'ok' if code == 0 else 'other:TypeError' if code == 10 else 'reject'
 
 
 # ------------------------------------------------------------------ finder_src -> cx
@@ -540,7 +575,7 @@ def paths_for(templates, rng, max_paths):
 
 # ------------------------------------------------------------------ one history
 
-def check_history(ctx, model, ops, paths=None, max_paths=400, tag='gen'):
+def check_history(ctx, model, ops, paths=None, max_paths=400, tag='gen', asgi=False):
     """ops: ['add', tpl, rid, compile] | ['find', uri-or-None].  Returns True when clean."""
     import falcon
     from falcon.routing import compiled
@@ -561,9 +596,9 @@ def check_history(ctx, model, ops, paths=None, max_paths=400, tag='gen'):
     real_ops, wire_ops, accepted = [], [], []
     for o in ops:
         if o[0] == 'add':
-            r = real_add(compiled, A, o[1], o[2], o[3], resources)
+            r = real_add(compiled, A, o[1], o[2], o[3], resources, asgi, rok_of(o))
             real_ops.append(r)
-            wire_ops.append([0, o[1], o[2], 1 if o[3] else 0])
+            wire_ops.append([0, o[1], o[2], 1 if o[3] else 0, 1 if rok_of(o) else 0])
             if r == 'ok':
                 accepted.append(o)
         else:
@@ -584,20 +619,20 @@ def check_history(ctx, model, ops, paths=None, max_paths=400, tag='gen'):
     def rebuild(acc):
         r = compiled.CompiledRouter()
         for o in acc:
-            real_add(compiled, r, o[1], o[2], False, resources)
+            real_add(compiled, r, o[1], o[2], False, resources, asgi, rok_of(o))
         return r
     B, acc = compiled.CompiledRouter(), []
     for o, r in zip(ops, real_ops):
         if o[0] != 'add':
             continue
         if r == 'ok':
-            if real_add(compiled, B, o[1], o[2], False, resources) == 'ok':
+            if real_add(compiled, B, o[1], o[2], False, resources, asgi, rok_of(o)) == 'ok':
                 acc.append(o)
             else:
                 B = rebuild(acc)
         else:
             trial = rebuild(acc)
-            if real_add(compiled, trial, o[1], o[2], False, resources) == 'ok':
+            if real_add(compiled, trial, o[1], o[2], False, resources, asgi, rok_of(o)) == 'ok':
                 acc.append(o)
                 B = trial
     ref_paths = [real_find(B, p) for p in paths]
@@ -608,7 +643,7 @@ def check_history(ctx, model, ops, paths=None, max_paths=400, tag='gen'):
         wire_ops.append([1, p])
         wire_ops.append([3, p, rp[1] if rp[0] == 'ok' else []])
     outs = model.run([3, tab, multi, wire_ops])
-    hist = {'history': [list(o) for o in ops], 'tag': tag}
+    hist = {'history': [list(o) for o in ops], 'tag': tag, 'asgi': asgi}
     clean = True
     found = False
 
@@ -636,7 +671,7 @@ def check_history(ctx, model, ops, paths=None, max_paths=400, tag='gen'):
     mismatch = False
     for i, (o, r, m) in enumerate(zip(ops, real_ops, outs[:n_hist])):
         if o[0] == 'add':
-            mres = 'ok' if m[1] == 0 else 'reject'
+            mres = model_class(m[1])
             ctx.count('add-' + (r if r in ('ok', 'reject') else 'other'))
             if mres != r:
                 mismatch = True
@@ -648,7 +683,7 @@ def check_history(ctx, model, ops, paths=None, max_paths=400, tag='gen'):
     if mismatch:
         if not found:
             first = next((o, r, m) for o, r, m in zip(ops, real_ops, outs[:n_hist])
-                         if o[0] == 'add' and ('ok' if m[1] == 0 else 'reject') != r)
+                         if o[0] == 'add' and model_class(m[1]) != r)
             viol('correspondence-broken',
                  {'broken': 'C01.add_route_corr', 'template': first[0][1], 'impl': first[1],
                   'model': ERR_NAMES.get(first[2][1])}, 'corr-add', found_input=False)
@@ -887,6 +922,18 @@ def float_corr(ctx, model):
 
 # ------------------------------------------------------------------ entry points
 
+FIXED_RESOURCE_HISTORIES = [
+    # add_route refused because of the RESOURCE (responders of the wrong kind for the router): for an
+    # existing template (must not override), for a new one (must not become routable), before and after
+    # compilation, with and without the compile flag
+    [['add', '/a', 0, False, True], ['find', '/a'], ['add', '/a', 1, False, False], ['find', '/a'],
+     ['add', '/b', 2, False, False], ['find', '/b'], ['add', '/c', 3, True, True], ['find', '/b'], ['find', '/a']],
+    [['add', '/u/{id}', 0, True, True], ['add', '/u/{id}', 1, True, False], ['add', '/u/{id}/x', 2, False, False],
+     ['find', '/u/7'], ['find', '/u/7/x'], ['add', '/u/{id}/y', 3, False, True], ['find', '/u/7/x'], ['find', '/u/7']],
+    [['add', '/n/{k:int}', 0, False, False], ['add', '/n/{name}', 1, False, True], ['find', '/n/5'],
+     ['add', '/n/{name}', 2, False, False], ['find', '/n/q']],
+]
+
 FIXED_HISTORIES = [
     # a route added after compilation that ends on an existing intermediate node
     [['add', '/users/{id}/posts', 0, False], ['find', '/users/7/posts'], ['add', '/users/{id}', 1, False],
@@ -948,6 +995,9 @@ def main(ctx):
     float_corr(ctx, model)
     for h in FIXED_HISTORIES:
         check_history(ctx, model, [list(o) for o in h], tag='fixed')
+    for h in FIXED_RESOURCE_HISTORIES:
+        for asgi in (False, True):
+            check_history(ctx, model, [list(o) for o in h], tag='fixed-resource', asgi=asgi)
     n_hist = 260 if ctx.tier == 'quick' else 2600
     budget = 120 if ctx.tier == 'quick' else 900
     done = 0
@@ -956,7 +1006,7 @@ def main(ctx):
             break
         n_add = ctx.rng.choice([2, 3, 4, 5, 6, 8, 12] if i % 10 else [20, 30])
         ops = gen_history(ctx.rng, n_add)
-        check_history(ctx, model, ops, max_paths=300 if ctx.tier == 'quick' else 600)
+        check_history(ctx, model, ops, max_paths=300 if ctx.tier == 'quick' else 600, asgi=(i % 3 == 2))
         done += 1
         if i < 2:
             ctx.sample({'history': [o[:4] for o in ops if o[0] == 'add'][:6]})
@@ -972,4 +1022,4 @@ def replay(ctx, obj):
     extra = [o[1] for o in ops if o[0] == 'find' and o[1] is not None]
     if paths is not None:
         paths = list(dict.fromkeys(list(paths) + extra + ['/']))
-    check_history(ctx, model, ops, paths=paths, tag='replay:' + str(obj.get('_file', '')))
+    check_history(ctx, model, ops, paths=paths, tag='replay:' + str(obj.get('_file', '')), asgi=bool(obj.get('asgi')))
